@@ -71,8 +71,29 @@ func helperBodyFresh(fd *ast.FuncDecl) bool {
 		}
 		return classify(e, locals) == "false"
 	}
+	// parameters whose elements are themselves references (a slice of slices, of pointers, of maps): copying the outer
+	// slice with copy() shares the elements
+	refElems := map[string]bool{}
+	for _, p := range fd.Type.Params.List {
+		if at, isArr := p.Type.(*ast.ArrayType); isArr {
+			switch at.Elt.(type) {
+			case *ast.ArrayType, *ast.StarExpr, *ast.MapType:
+				for _, n := range p.Names {
+					refElems[n.Name] = true
+				}
+			}
+		}
+	}
 	ast.Inspect(fd.Body, func(n ast.Node) bool {
 		switch x := n.(type) {
+		case *ast.CallExpr:
+			if id, isID := x.Fun.(*ast.Ident); isID && id.Name == "copy" && len(x.Args) == 2 {
+				dst, d := x.Args[0].(*ast.Ident)
+				src, sOK := x.Args[1].(*ast.Ident)
+				if d && sOK && made[dst.Name] && refElems[src.Name] {
+					ok = false // a shallow copy of a container of references
+				}
+			}
 		case *ast.AssignStmt:
 			for i, l := range x.Lhs {
 				if i >= len(x.Rhs) {
